@@ -11,8 +11,8 @@ trap 'rm -rf "$D"' EXIT
 rsync -a --exclude .git --exclude build --exclude pytest.log /repo/ "$D/"
 ( cd "$D" && patch -p1 -s < "$SD/patch.diff" ) || { echo "SEED $(basename "$SD") PATCH-FAILED"; exit 3; }
 demo="$SD/demo.py"; run=(/venv/bin/python); [ -f "$demo" ] || { demo="$SD/demo.sh"; run=(bash); }
-( cd "$SD" && timeout 900 "${run[@]}" "$demo" "$D" > "$D/demo_with.log" 2>&1 ); with=$?
-( cd "$SD" && timeout 900 "${run[@]}" "$demo" /repo > "$D/demo_without.log" 2>&1 ); without=$?
+mkdir -p "$D/cwd"; ( cd "$D/cwd" && timeout 900 "${run[@]}" "$demo" "$D" > "$D/demo_with.log" 2>&1 ); with=$?
+( cd "$D/cwd" && timeout 900 "${run[@]}" "$demo" /repo > "$D/demo_without.log" 2>&1 ); without=$?
 echo "SEED $(basename "$SD") demo: with-change rc=$with, pristine rc=$without"
 if [ $BASE = 1 ]; then echo "SEED $(basename "$SD") baseline: $(VERIF_REPO="$D" /verif/tools/baseline.py | tail -1)"; fi
 cd /verif
